@@ -596,11 +596,11 @@ def universes(tier):
     if tier == "quick":
         U.append(("list-L3-edge", dict(idx="IdxEdge", ren="RenTwo", keys=K4, newkeys=["z"], kinds=["S"], ops="ListOpsCore",
                                        starts=[1], tgt="root", maxlen=3, upd="UpdOne")))
-        U.append(("dict-L3", dict(idx="IdxEdge", ren="RenEdge", keys=K4, newkeys=["z"], kinds=["S"], ops="DictOpsCore",
+        U.append(("dict-L3", dict(idx="IdxEdge", ren="RenEdge", keys=K4, newkeys=["z", "update"], kinds=["S"], ops="DictOpsCore",
                                   starts=[3], tgt="root", maxlen=3, upd="UpdOne")))
         U.append(("list-L2-full", dict(idx="IdxFull", ren="RenNine", keys=K4, newkeys=["z"], kinds=["S", "L"], ops="ListOps",
                                        starts=[1, 2], tgt="root", maxlen=2, upd="UpdOne")))
-        U.append(("dict-L2-full", dict(idx="IdxEdge", ren="RenEdge", keys=K4, newkeys=["a", "z"], kinds=["S", "D"], ops="DictOps",
+        U.append(("dict-L2-full", dict(idx="IdxEdge", ren="RenEdge", keys=K4, newkeys=["a", "z", "clear"], kinds=["S", "D"], ops="DictOps",
                                        starts=[3, 4], tgt="root", maxlen=2, upd="UpdFull")))
         U.append(("nested-L2", dict(idx="IdxSmall", ren="RenTwo", keys=["a", "c", "_x"], newkeys=["z"], kinds=["S"], ops="AllOps",
                                     starts=[5, 6], tgt="kids", maxlen=2, upd="UpdOne")))
@@ -611,13 +611,13 @@ def universes(tier):
                                        starts=[7], tgt="root", maxlen=4, upd="UpdOne")))
         U.append(("dict-L4", dict(idx="IdxEdge", ren="RenEdge", keys=["a", "b", "_x"], newkeys=["z"], kinds=["S"], ops="DictOpsL4",
                                   starts=[8], tgt="root", maxlen=4, upd="UpdOne")))
-        U.append(("dict-L3-full", dict(idx="IdxEdge", ren="RenEdge", keys=K4, newkeys=["a", "z"], kinds=["S"], ops="DictOps",
+        U.append(("dict-L3-full", dict(idx="IdxEdge", ren="RenEdge", keys=K4, newkeys=["a", "z", "clear"], kinds=["S"], ops="DictOps",
                                        starts=[3], tgt="root", maxlen=3, upd="UpdFull")))
         U.append(("nested-L3", dict(idx="IdxNest", ren="RenTwo", keys=["a", "_x"], newkeys=["z"], kinds=["S"], ops="AllOps",
                                     starts=[5, 6], tgt="kids", maxlen=3, upd="UpdOne")))
         U.append(("list-L2-full", dict(idx="IdxFull", ren="RenFull", keys=K4, newkeys=["z"], kinds=["S", "L"], ops="ListOps",
                                        starts=[1, 2], tgt="root", maxlen=2, upd="UpdOne")))
-        U.append(("dict-L2-full", dict(idx="IdxEdge", ren="RenEdge", keys=K4 + ["clear"], newkeys=["a", "z"], kinds=["S", "D"], ops="DictOps",
+        U.append(("dict-L2-full", dict(idx="IdxEdge", ren="RenEdge", keys=K4 + ["clear"], newkeys=["a", "z", "clear"], kinds=["S", "D"], ops="DictOps",
                                        starts=[3, 4], tgt="root", maxlen=2, upd="UpdFull")))
         U.append(("dict-shadow-L2", dict(idx="IdxEdge", ren="RenEdge", keys=["a", "_x", "clear"], newkeys=["z"], kinds=["S"], ops="DictOps",
                                          starts=[3, 4], tgt="root", maxlen=2, upd="UpdShadow")))
@@ -776,7 +776,7 @@ def gen_op(rng, root, fresh):
         return [name, tp, i, i2, "", "", flag, vals]
     name = rng.choice(["d.setitem", "d.setattr", "d.delitem", "d.delattr", "d.update", "d.setdefault", "d.pop", "d.popitem",
                        "d.clear", "d.set_child", "d.remove_child", "d.rename_child", "d.setitem", "d.delitem"])
-    key, key2 = rng.choice(B_KEYS), rng.choice(["a", "b", "z", "_y"])
+    key, key2 = rng.choice(B_KEYS), rng.choice(["a", "b", "z", "_y", "clear", "update"])
     vals, flag = [], False
     setters = ("d.setitem", "d.setattr", "d.setdefault", "d.set_child")
     if name in setters:
@@ -985,7 +985,7 @@ def run(prop, tier, seed, replay, keep):
         if not quick:
             jobs.insert(2, ("asis/simulate-L8", "MC_AyContainer",
                             cfg_container(set(ON), invariants=[], emit=True, idx="IdxFull", ren="RenEdge", keys=["a", "b", "c", "_x"],
-                                          newkeys=["a", "z"], kinds=["S", "L", "D"], ops="AllOps", starts=[1, 3, 5, 6], tgt="both", maxlen=8,
+                                          newkeys=["a", "z", "clear"], kinds=["S", "L", "D"], ops="AllOps", starts=[1, 3, 5, 6], tgt="both", maxlen=8,
                                           upd="UpdFull", sim=True), 6, "num=1500", 10))
         for sw, invs, kw in MUTATIONS:
             jobs.append(("mutation/" + sw, "MC_AyContainer",
